@@ -10,8 +10,8 @@ LEVEL = 'model_checking'
 ENGINE = 'E1'
 RULE = ('exhaustive enumeration of user-function answer sequences: every sequence over {A,R,N,X}^n for n<=5 (quick) / 6 (thorough) and over {A,R,N}^n for n=6 (quick) / 7,8 (thorough), the run-length family '
         'A^a F^f A^b (a,b in 0..2, f in {1,7,8,9,15,16,17,31,32,33,40}, F in R/N/X) crossing the consecutive-error warning thresholds, every sequence of length <=3 (quick) / 4 (thorough) on an output file that '
-        'already exists (overwrite=True and overwrite=False); output given as str and as Path, returned data of the input length / shorter / longer / another dtype, extra kwargs forwarded; each execution followed by a '
-        'second run() on the same object. A case = one (answer sequence, variant); a state = one (trace index, accepted so far, consecutive failures) observed at a call of the user function; '
+        'already exists (overwrite=True and overwrite=False); output given as str and as Path, returned data of the input length / shorter / longer / another dtype, extra kwargs forwarded; histories check() -> run() on one object; each '
+        'execution followed by a second run() on the same object. A case = one (answer sequence, variant); a state = one (trace index, accepted so far, consecutive failures) observed at a call of the user function; '
         'non-trivial = at least one accepted and one refused trace')
 ASSUMPTIONS = ['estraces (ETS writer/reader, RAM reader) and h5py are trusted', 'returned data has one constant length/dtype per run (an ETS file stores a rectangular array)', 'n <= 8 traces except the run-length family (<= 44)']
 TRUSTED = ['the list model in this file', 'estraces']
@@ -54,6 +54,11 @@ def _cases(tier):
                 for F in 'RNX':
                     out.append({'answers': 'A' * a + F * f + 'A' * b, 'out': outs[k % 2], 'data': datas[(k // 2) % 4], 'pre': 'fresh', 'kw': False}); k += 1
                 out.append({'answers': 'A' * a + ('RNX' * f)[:f] + 'A' * b, 'out': 'str', 'data': 'same', 'pre': 'fresh', 'kw': False})
+    # history: check() (the documented dry run on randomly picked traces) before run() on the same object
+    for n in range(1, (4 if tier == 'quick' else 5) + 1):
+        for seq in itertools.product('ARN', repeat=n):
+            for nb in (1, 3):
+                out.append({'answers': ''.join(seq), 'out': outs[k % 2], 'data': datas[(k // 2) % 4], 'pre': 'fresh', 'kw': False, 'check_first': nb}); k += 1
     for n in range(1, (3 if tier == 'quick' else 4) + 1):
         for seq in itertools.product('ARN', repeat=n):
             for pre in ('exists_overwrite', 'exists_keep'):
@@ -108,6 +113,14 @@ def execute(case, tmpdir, seed=0):
     holder = {}
 
     def fun(trace_object, **kw):
+        if not calls['run']:
+            # dry run (check()): answer according to the trace that is handed over, observe nothing
+            j = int(np.asarray(trace_object.idx).reshape(-1)[0])
+            a = ans[j]
+            if a == 'R': raise scared.ResynchroError('rejected %d' % j)
+            if a == 'X': raise ZeroDivisionError('boom %d' % j)
+            if a == 'N': return None
+            return _data(tr[j], j, case['data'], kw.get('scale', 1))
         i = calls['i']; calls['i'] += 1
         s = holder['s']
         if s.processed_counter != i or s.synchronized_counter != calls['acc']:
@@ -136,6 +149,15 @@ def execute(case, tmpdir, seed=0):
     acc = [i for i, a in enumerate(ans) if a == 'A']
     exp_rows = [_data(tr[i], i, case['data'], scale) for i in acc]
     res = None
+    if case.get('check_first'):
+        import io, contextlib
+        np.random.seed(seed + n)                                   # check() picks its traces with numpy's global generator
+        try:
+            with contextlib.redirect_stdout(io.StringIO()):
+                s.check(nb_traces=case['check_first'])
+        except Exception as e:
+            viol.append(('C20/check/raised', '%r: check() raised %s: %s' % (ans, type(e).__name__, e)))
+    calls['run'] = 1
     with warnings.catch_warnings(record=True) as wrn:
         warnings.simplefilter('always')
         try:
